@@ -1,8 +1,8 @@
-import CandidModel.Proofs.Leb
+import CandidModel.Proofs.LebBig
 import CandidModel.Gen.Consts
 /-
   C09 — Unbounded and 128-bit integer codecs implement (S)LEB128 exactly.
-  Property theorems only (helper lemmas: Proofs/Leb.lean).  `Leb.*` is the specification layer,
+  Property theorems only (helper lemmas: Proofs/Leb.lean, Proofs/LebBig.lean).  `Leb.*` is the specification layer,
   `Leb.Impl.*` mirrors the Rust.
 -/
 namespace Candid.Props.C09
@@ -61,6 +61,15 @@ theorem nat_encode_minimal (n : Nat) : Impl.natEncode n = uleb n ∧ Impl.encode
 magnitude, and `Encode!` at i128) writes the minimal signed encoding -/
 theorem int_encode_loop_minimal (i : Int) : Impl.encodeIntLoop i = sleb i := encodeIntLoop_eq_sleb i
 
+/-- **`Int::encode` writes the minimal signed encoding of every integer**: below 2^63 in magnitude through the
+leb128 crate's loop, beyond by re-packing the two's-complement bytes of the big integer seven bits at a time, up to
+the highest bit that differs from the sign — for integers of any size, either sign. -/
+theorem int_encode_minimal (i : Int) : Impl.intEncode i = sleb i := intEncode_eq_sleb i
+
+/-- hence every encoded integer reads back as itself, with nothing consumed beyond it -/
+theorem int_encode_reads_back (i : Int) (r : Bytes) : specReadInt (Impl.intEncode i ++ r) = some (i, r) := by
+  rw [intEncode_eq_sleb]; exact specReadInt_sleb i r
+
 /-- hence an encoded natural number decodes to itself through `Nat::decode` -/
 theorem nat_encode_decode (n : Nat) (r : Bytes) : natDecode (Impl.natEncode n ++ r) = .ok (n, r) := by
   rw [natEncode_eq_uleb, nat_decode_exact _ _ (uleb_terminated n), uval_uleb]
@@ -69,5 +78,10 @@ theorem nat_encode_decode (n : Nat) (r : Bytes) : natDecode (Impl.natEncode n ++
 example : Terminated ([0x81] ++ List.replicate 17 0x80 ++ [0x00]) := by simp [Terminated, List.replicate]
 example : decodeNat128 ([0x80, 0x80, 0x80, 0x80, 0x80, 0x80, 0x80, 0x80, 0x80, 0x80, 0x80, 0x80, 0x80, 0x80,
     0x80, 0x80, 0x80, 0x80, 0x04]) = .err .overflow := by decide
+
+/-- non-vacuity of the big-number path: `2^70` and `-2^70 - 1` are beyond the word path -/
+example : ¬ (-(2 : Int) ^ 63 ≤ (2 : Int) ^ 70 ∧ (2 : Int) ^ 70 < (2 : Int) ^ 63) := by decide
+example : Impl.intEncode (-(2 : Int) ^ 70 - 1) = [0xff, 0xff, 0xff, 0xff, 0xff, 0xff, 0xff, 0xff, 0xff, 0xff, 0x7e] := by
+  decide +kernel
 
 end Candid.Props.C09
